@@ -350,6 +350,36 @@ KeyTupleAdd == "tuple-add-drops-left-operand"
 KeyCrossEq == "cross-type-equality"
 KeyRejected == "value-of-rejected-expression"
 KeyMatchLeaves == "exhaustive-match-leaves-block"
+KeyUnmodelled == "unmodelled-container-mutator"
+KeyMutLost == "mutation-lost-on-exception-path"
+KeyAbsTruthy == "abstract-type-assumed-truthy"
+KeyVariadic == "variadic-tuple-leniency"
+
+RECURSIVE HasManyT(_)
+HasManyT(T) ==
+    CASE T.k = "seq" -> \E i \in 1..Len(T.ms) : T.ms[i].many \/ HasManyT(T.ms[i].t)
+      [] T.k = "generic" -> \E i \in 1..Len(T.args) : HasManyT(T.args[i])
+      [] T.k = "union" -> \E i \in 1..Len(T.ms) : HasManyT(T.ms[i])
+      [] OTHER -> FALSE
+
+\* ---- (e) in-place mutators of list / dict / set that have no impl function: the inferred type of the container stays
+\* what it was (the impl table of implementation.py models append / extend / += / add / dict setitem / setdefault /
+\* update / pop / delitem only)
+Dev_UnmodelledMutator(cls, via) ==
+    <<cls, via>> \in {<<"list", ".insert">>, <<"list", ".pop">>, <<"list", ".clear">>, <<"list", ".sort">>, <<"list", ".reverse">>,
+                      <<"list", ".remove">>, <<"list", "[]=">>, <<"list", "del[]">>, <<"dict", ".popitem">>, <<"dict", ".clear">>,
+                      <<"set", ".pop">>, <<"set", ".clear">>, <<"set", ".remove">>, <<"set", ".update">>}
+
+\* ---- (g) list.extend / list.__iadd__ with a literal (KnownValue) str argument: _list_extend_or_iadd_impl checks the
+\* element type only for TypedValue iterables, a literal str falls through and the list type stays unchanged
+KeyExtendKnown == "list-extend-literal-str-unchecked"
+Dev_ListExtendKnown(cls, via, argval, arginf) ==
+    cls = "list" /\ via \in {"aug+", ".extend"} /\ arginf.k = "known" /\ argval.c = "str" /\ argval.v # ""
+
+\* ---- (f) a value whose static type is an abstract class without __bool__ / __len__ (Iterable) is assumed always
+\* truthy although the runtime object (a list, a str) can be empty
+IsFalsy(o) == (o.c \in {"list", "tuple", "set", "dict"} /\ o.items = << >>) \/ (o.c = "str" /\ o.v = "")
+Dev_AbstractTruthy(val, inf) == inf.k \in {"typed", "generic"} /\ inf.c = "Iterable" /\ IsFalsy(val)
 
 \* ---- (a) numeric promotion lost by isinstance (same root cause as C02's class of the same name) -----------------
 \* CPython's isinstance versus what the narrowing assumes: typeshed's artificial bases make every int an instance of
